@@ -1006,6 +1006,42 @@ func runC09(c *hc.Ctx) error {
 			c.Sample(caseJSON(g, poly, ids, cfg, r))
 		}
 	}
+	// NON-ROUND real grids (WebMercatorQuad): the accepted region [min, min + 2^d*res) must not reach beyond the
+	// extent of the tile matrix set; vertices on the right/top border of that extent, and a hair beyond, are outside
+	for i := 0; i < c.N(120, 4000); i++ {
+		id := 8 + c.Rng.Intn(12)
+		g, err := embeddedGrid("WebMercatorQuad", id)
+		if err != nil || g.Deep > 32 {
+			continue
+		}
+		size := int64(1) << g.Deep
+		inside := Pt{g.Ext[0] + (size-50-c.Rng.Int63n(1000))*g.Res, g.Ext[1] + (size-50-c.Rng.Int63n(1000))*g.Res}
+		ring := []Pt{inside, {inside[0] - 30*g.Res, inside[1] + 3*g.Res}, {inside[0] - 10*g.Res, inside[1] - 25*g.Res}}
+		ax := c.Rng.Intn(2)
+		beyond := []int64{0, 1, g.Res / 16, g.Res / 2, g.Res}[c.Rng.Intn(5)]
+		ring[0][ax] = g.Ext[ax+2] + beyond // on the (exclusive) right/top border of the extent, or beyond it
+		fp := geom.Polygon{make([][2]float64, len(ring))}
+		for j := range ring {
+			fp[0][j] = [2]float64{float64(ring[j][0]) / 1e10, float64(ring[j][1]) / 1e10}
+		}
+		seen := intgeom.FromGeomPoint(fp[0][0])
+		if seen[ax] < g.Ext[ax+2] {
+			continue // the float image fell back inside the extent
+		}
+		cfg := randCfg(c.Rng)
+		cfg.IgnoreOutsideGrid = c.Rng.Intn(2) == 0
+		r := runSnapFloat(g, fp, []int{id}, cfg, watchdog)
+		c.Sum.Evaluations++
+		c.Count("on / just beyond the right or top border of a non-round extent (WebMercatorQuad)")
+		c.Nontrivial(fmt.Sprint(fp, id, cfg))
+		in := map[string]any{"grid": g.Name, "grid_int": map[string]any{"ext": g.Ext, "res": g.Res, "deep": g.Deep}, "ids": []int{id}, "config": cfgJSON(cfg), "polygon": fp}
+		switch {
+		case !cfg.IgnoreOutsideGrid && r.Panic != "OutsideGrid":
+			c.Violate(hc.Violation{What: "a polygon with a vertex on or beyond the right/top border of the tile matrix set extent was not rejected", Input: in, Expected: "panic OutsideGrid", Observed: r.Panic + " " + r.PanicMsg})
+		case cfg.IgnoreOutsideGrid && (r.Panic != "" || len(r.Raw) != 0):
+			c.Violate(hc.Violation{What: "with ignore-outside-grid a polygon with a vertex on or beyond the right/top border of the extent did not return an empty result", Input: in, Expected: "empty map", Observed: r.Panic + " " + r.PanicMsg})
+		}
+	}
 	// far outside: vertices whole multiples of 2^32 (and 2^31, 2^16) deepest pixels beyond a border, on a real
 	// deep grid (NetherlandsRDNewQuad tile matrix 12-14: non-zero origin), where such distances fit in int64
 	for i := 0; i < c.N(60, 2000); i++ {
